@@ -562,7 +562,7 @@ func TestEngine(t *testing.T) {
 	id := 0
 	hdr := func(mode string) string { id++; return fmt.Sprintf("case %d mode=%s", id, mode) }
 	runCase(t, tr, hdr("fields"), []string{"fields"})
-	for range hxp.Cases(1500, 40000) {
+	for range hxp.Cases(4000, 60000) {
 		runCase(t, tr, hdr("tree"), []string{fmt.Sprintf("cfg %d tree", r.Uint64()>>1)})
 	}
 	for range hxp.Cases(20, 300) {
